@@ -16,7 +16,10 @@ func unsafePtr(p *simrt.TimerSpec) unsafe.Pointer { return unsafe.Pointer(p) }
 func Now() time.Time {
 	ns, _, ok := simrt.Ask(simrt.ReqClock, simrt.OpClock, 0, 0, nil)
 	if !ok {
-		return time.Now()
+		if simrt.Unmanaged() {
+			return time.Now()
+		}
+		return time.Unix(0, simrt.SimEpoch) // package initialisers of a simulated process
 	}
 	return time.Unix(0, ns)
 }
